@@ -92,6 +92,33 @@ theorem C20_less_iff_text_lt (t : Tbl) (ht : t.WF) (r o : Ref) (hr : WFKnown t r
     simp only [hne, if_true]
     exact (ltB_names _ _ _ _ h1 h2 hn).symm
 
+/-- the text form is injective on refs of supported hash functions: two such refs with the same
+text are the same ref (so a store keyed by text and one keyed by ref hold the same set) -/
+theorem C20_toText_injective (t : Tbl) (ht : t.WF) (r o : Ref) (hr : WFKnown t r) (ho : WFKnown t o)
+    (h : toText r = toText o) : r = o := by
+  have h1 := C20_toText_parse_known t ht r hr true
+  have h2 := C20_toText_parse_known t ht o ho true
+  rw [h, h2] at h1
+  exact (Option.some.inj h1).symm
+
+/-- **`Less` is a strict total order on refs of supported hash functions** – irreflexive, transitive
+and trichotomous – which is what lets every enumeration (sorted by `Less` or by text, C01) have one
+well-defined order and every `after` cursor one well-defined position -/
+theorem C20_less_strict_total (t : Tbl) (ht : t.WF) (a b c : Ref) (ha : WFKnown t a) (hb : WFKnown t b)
+    (hc : WFKnown t c) :
+    less a a = false ∧
+    (less a b = true → less b c = true → less a c = true) ∧
+    (less a b = true → less b a = false) ∧
+    (less a b = true ∨ a = b ∨ less b a = true) := by
+  rw [C20_less_iff_text_lt t ht a a ha ha, C20_less_iff_text_lt t ht a b ha hb,
+    C20_less_iff_text_lt t ht b c hb hc, C20_less_iff_text_lt t ht a c ha hc,
+    C20_less_iff_text_lt t ht b a hb ha]
+  refine ⟨ltB_irrefl _, ltB_trans _ _ _, ltB_asymm _ _, ?_⟩
+  rcases ltB_total (toText a) (toText b) with h | h | h
+  · exact Or.inl h
+  · exact Or.inr (Or.inl (C20_toText_injective t ht a b ha hb h))
+  · exact Or.inr (Or.inr h)
+
 /-- `EqualString` on a supported ref decides equality with the text form and cannot panic -/
 theorem C20_equalString_iff (t : Tbl) (r : Ref) (hr : WFKnown t r) (s : Bytes) :
     equalString t r s = some (decide (s = toText r)) := by
